@@ -83,6 +83,7 @@ void oracle_misuse_op(const Op& op) {
 
 // C06: malformed or oversized requests fail cleanly and have no other effect
 size_t heap_used_sum(mi_heap_t* h, size_t* pages);
+bool forced_abandon_possible_pub();   // a failing request runs a forced collect, which re-adopts force-abandoned pages
 #include <errno.h>
 #include <stdint.h>
 #include <vector>
@@ -144,7 +145,7 @@ void oracle_bad_request(const Op& op) {
   }
   // ... nor on the heap
   size_t pages1 = 0; const size_t used1 = dh ? heap_used_sum(dh, &pages1) : 0;
-  if (used1 + (freed ? 1 : 0) != used0 && !(freed && used1 == used0)) sim_violation("bad_request", "malformed request kind %d changed the number of used blocks of the heap: %zu -> %zu", kind, used0, used1);
+  if (!forced_abandon_possible_pub() && used1 + (freed ? 1 : 0) != used0 && !(freed && used1 == used0)) sim_violation("bad_request", "malformed request kind %d changed the number of used blocks of the heap: %zu -> %zu", kind, used0, used1);
   if (os_mapped_bytes() > mapped0) sim_violation("bad_request", "malformed request kind %d left a new OS mapping behind (%zu -> %zu bytes mapped)", kind, mapped0, os_mapped_bytes());
   probe(PR_misuse_detected, 0);
 }
